@@ -192,12 +192,12 @@ pub fn run_check(prop: &str, tier: &str) -> i32 {
             let mut deep = suites::partition_suites(thorough);
             let plan = crashprops::CrashPlan { crash: false, layout_tag: "C05", nest: 0, reopen_cycles: 0, sector_tear: false, layout: true, probe_auto_ts: false, continue_after: false };
             let (large, rest): (Vec<Suite>, Vec<Suite>) = std::mem::take(&mut deep).into_iter().partition(|s| s.name.starts_with("part-large"));
-            crashprops::crash_check(prop, rest, &["C05"], plan, budget * 0.4, &mut report);
+            crashprops::crash_check(prop, rest, &["C05"], plan, budget * 0.35, &mut report);
             // on the roomy device a key that is lost or unreadable after a clean reopen is damage to
             // stored bytes: the sequential oracle's verdicts count (on the tiny devices a close that
             // cannot flush legitimately loses unflushed writes, which the reference model does not follow)
             let plan = crashprops::CrashPlan { crash: false, layout_tag: "C05", nest: 0, reopen_cycles: 0, sector_tear: false, layout: true, probe_auto_ts: false, continue_after: false };
-            crashprops::crash_check(prop, large, &["C05", "C01"], plan, budget * 0.1, &mut report);
+            crashprops::crash_check(prop, large, &["C05", "C01"], plan, budget * 0.15, &mut report);
             // (2) the same invariants on every store recovered from a crash image
             let s = suites::crash_suites(thorough);
             let plan = crashprops::CrashPlan { crash: true, layout_tag: "C05", nest: 0, reopen_cycles: 0, sector_tear: false, layout: true, probe_auto_ts: false, continue_after: false };
